@@ -26,6 +26,8 @@ FIXED = [
  ("F4",  ["C06", "C14"], "1c13bfd", "combine paired boxes / offsets in header order while scanning files sequentially: wrong data whenever a binary file is not stored in header order (mode switch was a == typo)"),
  ("F40", ["C06"], "a0b2e20", "combine --vars2 given on the command line (a string) was iterated character by character: every selection of the second input was refused"),
  ("F41", ["C17"], "a3459b9", "chk2plt --species parsed the names with type=int: a species list could not be given on the command line"),
+ ("F42", ["C13"], "31f187c", "pestle command line turned every read error (missing level header, corrupted header) into a 'not supported' message and exit status 0"),
+ ("F43", ["C13"], "2098dcf", "whip command line exited with status 0 for a 2D plotfile although nothing was written"),
  ("F21", ["C13"], "b455f93", "combine default output with a trailing slash on input 1 was input 2 itself (its Header overwritten)"),
  ("F6",  ["C07"], "a55b6fc", "mandoline default position was (high-low)/2, outside the domain for shifted origins -> uninitialised image"),
  ("F20", ["C13"], "c0fc4b6", "mandoline default output with a trailing slash landed inside the input plotfile"),
